@@ -8,6 +8,9 @@ pre-existing file content (identical, modified, truncated, longer, anything), ev
 * `restore_exact` — with verification on, or size/mtime differing, the file ends as the snapshot's content, for every
    prior content and every option set.  (Was `restore_exact_partial` with the hypothesis "sparse is off or the file did
    not exist": DESIGN §7 #13 was a genuine defect and is repaired — `sparse_over_existing_data_repaired`.)
+* `restore_exact_size_or_mtime_differs` — the same spelled out on timestamps: the model's `add_file` compares seconds AND
+   nanoseconds (`MTime`, `mtimeEq`); a destination file whose mtime differs from the node's only in the nanosecond part is
+   rewritten.  `existing_file_trusted` is the converse (equal size and mtime to the nanosecond, no verification ⇒ kept unread).
 * `accepted_by_size_and_mtime_witness` — the clause "(with verification … or their size/mtime differing)" is needed.
 * `path_confined` — every snapshot path the repaired code accepts (`refused = false`) stays below the destination, for
    every base; `hostile_names_refused` / the `decide`d witnesses show `..`, absolute names and `a/../..` are refused
@@ -79,9 +82,9 @@ theorem allocate_fresh (old : Bytes) (n : Nat) : allocate old true n = List.repl
 /-- **restore_exact** (no longer `_partial`: the sparse rule was repaired, see known_findings.d/C14.json).  For every
 prior content of the destination file, every blob list and every option set — `sparse` included — the file ends as the
 snapshot's content, when verification is on or the file's size or mtime differs from the node's. -/
-theorem restore_exact (o : Opts) (old : Option Bytes) (mtimeEq : Bool) (blobs : List Bytes)
-    (hcheck : o.verify = true ∨ mtimeEq = false ∨ (matchingFile old blobs.flatten.length).isSome = false) :
-    restoreFile o old mtimeEq blobs = some blobs.flatten := by
+theorem restore_exact (o : Opts) (old : Option Bytes) (dm nm : Option MTime) (blobs : List Bytes)
+    (hcheck : o.verify = true ∨ mtimeEq dm nm = false ∨ (matchingFile old blobs.flatten.length).isSome = false) :
+    restoreFile o old dm nm blobs = some blobs.flatten := by
   unfold restoreFile
   simp only
   by_cases h0 : blobs.flatten.length = 0 ∧ (matchingFile old blobs.flatten.length).isSome = true
@@ -101,7 +104,7 @@ theorem restore_exact (o : Opts) (old : Option Bytes) (mtimeEq : Bool) (blobs : 
       subst h1
       simp [h2, matchingFile]
   · simp only [h0, if_false]
-    have h1 : ¬ (o.verify = false ∧ (matchingFile old blobs.flatten.length).isSome = true ∧ mtimeEq = true) := by
+    have h1 : ¬ (o.verify = false ∧ (matchingFile old blobs.flatten.length).isSome = true ∧ mtimeEq dm nm = true) := by
       rintro ⟨a, b, c⟩
       rcases hcheck with h | h | h
       · rw [h] at a; cases a
@@ -117,40 +120,102 @@ theorem restore_exact (o : Opts) (old : Option Bytes) (mtimeEq : Bool) (blobs : 
       rw [segs_written (by simp)]
 
 /-- a fresh destination is always restored exactly, for every option set -/
-theorem restore_fresh_exact (o : Opts) (mtimeEq : Bool) (blobs : List Bytes) :
-    restoreFile o none mtimeEq blobs = some blobs.flatten :=
-  restore_exact o none mtimeEq blobs (Or.inr (Or.inr (by simp [matchingFile])))
+theorem restore_fresh_exact (o : Opts) (dm nm : Option MTime) (blobs : List Bytes) :
+    restoreFile o none dm nm blobs = some blobs.flatten :=
+  restore_exact o none dm nm blobs (Or.inr (Or.inr (by simp [matchingFile])))
 
 /-- DESIGN §7 #13, **repaired**: `--sparse` over a file holding non-zero bytes.  The unrepaired rule skipped the write
 of every all-zero blob, so the old bytes stayed (`ffffffff` on the first input); the repaired code writes zeros into a
 reused file and truncates a file of another size first.  Replayed on the real code: `corpus/C14/witnesses.ops`. -/
 theorem sparse_over_existing_data_repaired :
-    restoreFile { verify := true, sparse := true } (some [0xff, 0xff, 0xff, 0xff]) false [[0, 0, 0, 0]] = some [0, 0, 0, 0] ∧
-    restoreFile { verify := true, sparse := true } (some [0xff, 0xff, 0xff, 0xff, 0xff, 0xff]) false [[0, 0, 0, 0]] =
+    restoreFile { verify := true, sparse := true } (some [0xff, 0xff, 0xff, 0xff]) (some ⟨5, 7⟩) (some ⟨6, 7⟩) [[0, 0, 0, 0]] = some [0, 0, 0, 0] ∧
+    restoreFile { verify := true, sparse := true } (some [0xff, 0xff, 0xff, 0xff, 0xff, 0xff]) (some ⟨5, 7⟩) (some ⟨6, 7⟩) [[0, 0, 0, 0]] =
       some [0, 0, 0, 0] ∧
-    restoreFile { verify := true, sparse := true } (some [0xff]) false [[0, 0], [1, 2]] = some [0, 0, 1, 2] := by decide
+    restoreFile { verify := true, sparse := true } (some [0xff]) (some ⟨5, 7⟩) (some ⟨6, 7⟩) [[0, 0], [1, 2]] = some [0, 0, 1, 2] := by decide
 
 /-- without verification a file of the right size and mtime is accepted unread (hence the clause in the statement) -/
 theorem accepted_by_size_and_mtime_witness :
-    restoreFile { verify := false, sparse := false } (some [9, 9]) true [[1, 2]] = some [9, 9] := by decide
+    restoreFile { verify := false, sparse := false } (some [9, 9]) (some ⟨5, 7⟩) (some ⟨5, 7⟩) [[1, 2]] = some [9, 9] := by decide
 
-example : restoreFile { verify := false, sparse := false } (some [9, 9, 9]) true [[1], [2]] = some [1, 2] := by decide
-example : restoreFile { verify := true, sparse := true } (some [1, 7, 7, 7]) false [[1, 2], [0, 0]] = some [1, 2, 0, 0] := by decide
+example : restoreFile { verify := false, sparse := false } (some [9, 9, 9]) (some ⟨5, 7⟩) (some ⟨5, 7⟩) [[1], [2]] = some [1, 2] := by decide
+example : restoreFile { verify := true, sparse := true } (some [1, 7, 7, 7]) (some ⟨5, 7⟩) (some ⟨6, 7⟩) [[1, 2], [0, 0]] = some [1, 2, 0, 0] := by decide
+
+/-! ### the "trust the existing file" shortcut of `add_file` compares FULL timestamps -/
+
+/-- two readable timestamps are equal for `add_file` iff the seconds AND the nanoseconds are -/
+theorem mtimeEq_some_iff (d n : MTime) : mtimeEq (some d) (some n) = true ↔ d.secs = n.secs ∧ d.nanos = n.nanos := by
+  cases d; cases n; simp [mtimeEq]
+
+theorem mtimeEq_false_of_differs {d n : MTime} (h : d.secs ≠ n.secs ∨ d.nanos ≠ n.nanos) :
+    mtimeEq (some d) (some n) = false := by
+  cases hb : mtimeEq (some d) (some n) with
+  | false => rfl
+  | true => have := (mtimeEq_some_iff d n).1 hb; omega
+
+/-- a node without mtime never equals the mtime of an existing file -/
+theorem mtimeEq_node_none (d : MTime) : mtimeEq (some d) none = false := by simp [mtimeEq]
+
+theorem matchingFile_none_of_size_differs {old : Option Bytes} {size : Nat} (h : old.map List.length ≠ some size) :
+    (matchingFile old size).isSome = false := by
+  cases old with
+  | none => simp [matchingFile]
+  | some f =>
+    have : f.length ≠ size := by simpa using h
+    simp [matchingFile, this]
+
+-- (the two theorems using these lemmas follow `restore_exact_tasks` below)
 
 /-! ### contents, writer task by writer task (`Model/RestoreTasks.lean`) -/
 
 /-- **restore_tasks_eq_segments.**  `restore_contents` as it is written — writer tasks only for the blobs NOT found in the
 existing file, the file created / truncated / sized inside the first task, holes skipped by the task — produces, for every
 prior content, blob list and option set, exactly the file of the segment model (tasks run in blob order). -/
-theorem restore_tasks_eq_segments (o : Opts) (old : Option Bytes) (mtimeEq : Bool) (blobs : List Bytes) :
-    restoreFileTasks o old mtimeEq blobs = restoreFile o old mtimeEq blobs :=
-  restoreFileTasks_eq o old mtimeEq blobs
+theorem restore_tasks_eq_segments (o : Opts) (old : Option Bytes) (dm nm : Option MTime) (blobs : List Bytes) :
+    restoreFileTasks o old dm nm blobs = restoreFile o old dm nm blobs :=
+  restoreFileTasks_eq o old dm nm blobs
 
 /-- `restore_exact` for the task-level model -/
-theorem restore_exact_tasks (o : Opts) (old : Option Bytes) (mtimeEq : Bool) (blobs : List Bytes)
-    (hcheck : o.verify = true ∨ mtimeEq = false ∨ (matchingFile old blobs.flatten.length).isSome = false) :
-    restoreFileTasks o old mtimeEq blobs = some blobs.flatten := by
-  rw [restore_tasks_eq_segments]; exact restore_exact o old mtimeEq blobs hcheck
+theorem restore_exact_tasks (o : Opts) (old : Option Bytes) (dm nm : Option MTime) (blobs : List Bytes)
+    (hcheck : o.verify = true ∨ mtimeEq dm nm = false ∨ (matchingFile old blobs.flatten.length).isSome = false) :
+    restoreFileTasks o old dm nm blobs = some blobs.flatten := by
+  rw [restore_tasks_eq_segments]; exact restore_exact o old dm nm blobs hcheck
+
+/-- **restore_exact_size_or_mtime_differs.**  For ALL destination states — no file, or a file of any content `old` with any
+mtime `d` — every node mtime `n`, blob list and option set: if verification of existing files is on, or the existing file's
+size differs from the node's, or its mtime differs from the node's **in the seconds or only in the nanoseconds**, the
+restored path holds exactly the snapshot's content (writer-task model = what the driver runs).  A comparison by whole
+seconds (seeded change C14-5) breaks it at `d.secs = n.secs ∧ d.nanos ≠ n.nanos`: the `example` below. -/
+theorem restore_exact_size_or_mtime_differs (o : Opts) (old : Option Bytes) (d n : MTime) (blobs : List Bytes)
+    (h : o.verify = true ∨ old.map List.length ≠ some blobs.flatten.length ∨ d.secs ≠ n.secs ∨ d.nanos ≠ n.nanos) :
+    restoreFileTasks o old (some d) (some n) blobs = some blobs.flatten := by
+  apply restore_exact_tasks
+  rcases h with h | h | h
+  · exact Or.inl h
+  · exact Or.inr (Or.inr (matchingFile_none_of_size_differs h))
+  · exact Or.inr (Or.inl (mtimeEq_false_of_differs h))
+
+/-- the same for a node that carries no mtime: an existing file is never trusted unread -/
+theorem restore_exact_node_without_mtime (o : Opts) (old : Option Bytes) (d : MTime) (blobs : List Bytes) :
+    restoreFileTasks o old (some d) none blobs = some blobs.flatten :=
+  restore_exact_tasks o old (some d) none blobs (Or.inr (Or.inl (mtimeEq_node_none d)))
+
+/-- **existing_file_trusted.**  The converse, the code as it is: without verification an existing file of the node's size
+whose mtime equals the node's to the nanosecond is kept unread, whatever it holds (hence the clause of the statement). -/
+theorem existing_file_trusted (o : Opts) (f : Bytes) (d : MTime) (blobs : List Bytes)
+    (hv : o.verify = false) (hs : f.length = blobs.flatten.length) :
+    restoreFileTasks o (some f) (some d) (some d) blobs = some f := by
+  unfold restoreFileTasks
+  simp [matchingFile, hs, hv, mtimeEq]
+
+/-- same size, other content, no verification: mtime equal to the nanosecond ⇒ trusted; the nanosecond part differing within
+the same second (either direction) or whole seconds differing ⇒ rewritten.  Replayed on the real code
+(`corpus/C14/witnesses.ops`, `c14 file … <dst-mtime> <node-mtime>`). -/
+example :
+    restoreFileTasks ⟨false, false⟩ (some [9, 9]) (some ⟨1600000000, 250000000⟩) (some ⟨1600000000, 250000000⟩) [[1, 2]] = some [9, 9] ∧
+    restoreFileTasks ⟨false, false⟩ (some [9, 9]) (some ⟨1600000000, 750000000⟩) (some ⟨1600000000, 250000000⟩) [[1, 2]] = some [1, 2] ∧
+    restoreFileTasks ⟨false, false⟩ (some [9, 9]) (some ⟨1600000000, 0⟩) (some ⟨1600000000, 1⟩) [[1, 2]] = some [1, 2] ∧
+    restoreFileTasks ⟨false, false⟩ (some [9, 9]) (some ⟨1600000001, 250000000⟩) (some ⟨1600000000, 250000000⟩) [[1, 2]] = some [1, 2] ∧
+    restoreFileTasks ⟨false, false⟩ (some [9, 9]) (some ⟨1600000000, 250000000⟩) none [[1, 2]] = some [1, 2] := by decide
 
 /-- **allocating_task_exists.**  A non-empty file that has to be created or resized (no existing file of the snapshot's
 size) gets at least one writer task — the one that creates and sizes it — whatever its blobs are, all-zero blobs under
@@ -165,16 +230,16 @@ permutation of the file's tasks; the first one to run allocates), a non-empty fi
 the statement's clause (verification on, or size/mtime differing).  With `restore_tasks_eq_segments` this discharges the
 former assumption "writes go to disjoint ranges, so the result is the concatenation of the segments whatever the thread
 order" (`tasks_pairwise`, `writeAt_comm`, `foldl_perm_comm`). -/
-theorem restore_any_task_order (o : Opts) (old : Option Bytes) (mtimeEq : Bool) (blobs : List Bytes) (ts : List Task)
+theorem restore_any_task_order (o : Opts) (old : Option Bytes) (dm nm : Option MTime) (blobs : List Bytes) (ts : List Task)
     (hp : ts.Perm (tasks o (matchingFile old blobs.flatten.length).isNone (matchingFile old blobs.flatten.length) 0 blobs))
     (h0 : blobs.flatten.length ≠ 0)
-    (hcheck : o.verify = true ∨ mtimeEq = false ∨ (matchingFile old blobs.flatten.length).isSome = false) :
+    (hcheck : o.verify = true ∨ mtimeEq dm nm = false ∨ (matchingFile old blobs.flatten.length).isSome = false) :
     runTasks old (matchingFile old blobs.flatten.length).isNone blobs.flatten.length ts = some blobs.flatten := by
   rw [runTasks_any_order o _ _ blobs old ts hp]
-  have h := restore_exact_tasks o old mtimeEq blobs hcheck
+  have h := restore_exact_tasks o old dm nm blobs hcheck
   unfold restoreFileTasks at h
   simp only [h0, if_false] at h
-  have h1 : ¬ (o.verify = false ∧ (matchingFile old blobs.flatten.length).isSome = true ∧ mtimeEq = true) := by
+  have h1 : ¬ (o.verify = false ∧ (matchingFile old blobs.flatten.length).isSome = true ∧ mtimeEq dm nm = true) := by
     rintro ⟨a, b, c⟩
     rcases hcheck with h | h | h
     · rw [h] at a; cases a
@@ -185,7 +250,7 @@ theorem restore_any_task_order (o : Opts) (old : Option Bytes) (mtimeEq : Bool) 
 /-- an all-zero file, sparse restore, no destination file: one hole task per blob, nothing is written, the file exists with
 the right length; without any task (`runTasks … []`) the destination would stay absent -/
 example : (tasks { verify := true, sparse := true } true none 0 [[0, 0], [0]]).map (·.hole) = [true, true] ∧
-    restoreFileTasks { verify := true, sparse := true } none false [[0, 0], [0]] = some [0, 0, 0] ∧
+    restoreFileTasks { verify := true, sparse := true } none none (some ⟨5, 7⟩) [[0, 0], [0]] = some [0, 0, 0] ∧
     runTasks none true 3 [] = none := by decide
 
 /-! ### confinement -/
